@@ -288,6 +288,37 @@ def _run(case):
             conds.append(cu[0])
     stats = {"producing": 0, "fast_path": 0}
     kf_flag = {}
+    # immutability ledger: what every pooled object evaluates to; only the target of an in-place step may change
+    ledger = {}
+
+    def _probe(o):
+        if hasattr(o, "evaluate_ln"):
+            D = int(o.D)
+            X = np.stack([np.full(D, 0.3), np.linspace(-0.7, 0.9, D)])
+            return [np.asarray(o.evaluate_ln(J(X)), float)]
+        return [np.asarray(getattr(o, a), float) for a in ("Sigma", "Lambda", "ln_det_Sigma", "M", "b") if getattr(o, a, None) is not None and not callable(getattr(o, a))]
+
+    def _ledger_check(targets, where):
+        for o in list(objs) + list(conds):
+            if any(o is t for t in targets):
+                ledger.pop(id(o), None)
+            if id(o) in ledger:
+                ref_obj, ref = ledger[id(o)]
+                try:
+                    cur = _probe(o)
+                except Exception:
+                    continue
+                same = len(cur) == len(ref) and all(a.shape == b_.shape and np.allclose(a, b_, rtol=1e-10, atol=1e-10, equal_nan=True) for a, b_ in zip(cur, ref))
+                if not same:
+                    fails.append(Failure(f"after[{where}]:bystander_changed", f"step ({where}) changed an object that was not its target (aliasing / in-place update of an operand)"))
+                    ledger[id(o)] = (o, cur)
+            else:
+                try:
+                    ledger[id(o)] = (o, _probe(o))
+                except Exception:
+                    pass
+
+    _ledger_check([], "init")
 
     class _Stop(Exception):
         pass
@@ -302,6 +333,11 @@ def _run(case):
         for r in (ra if isinstance(ra, tuple) else (ra,)):
             L = getattr(r, "Lambda", None)
             if L is not None:
+                if not np.all(np.isfinite(np.asarray(L, float))):
+                    f0 = Failure(tag + ":nonfinite", f"{tag}: result has a non-finite precision matrix")
+                    f0.update(kf_flag)
+                    fails.append(f0)
+                    raise _Stop()
                 k = float(np.max(oracle.cond(np.asarray(L, float))))
                 if not np.isfinite(k) or k > 1e6:
                     fails.append(Failure("excluded:ill_conditioned_derived", tag))
@@ -320,6 +356,7 @@ def _run(case):
         op = stp["op"]
         kf_flag = {}
         n_before = len(objs)
+        inplace_targets = []
         if op in ("multiply", "hadamard"):
             m = objs[stp["i"]]
             f = libx.make_factor(stp["fkind"], stp["f"])
@@ -346,6 +383,7 @@ def _run(case):
         elif op == "normalize":
             m = objs[stp["i"]]
             lib(fails, "normalize", lambda: m.normalize())
+            inplace_targets.append(m)
             stats["producing"] += 1
         elif op == "get_density":
             m = objs[stp["i"]]
@@ -375,6 +413,7 @@ def _run(case):
             m = objs[stp["i"]]
             new = libx.make_measure(stp.get("nkind", "pdf"), stp["new"])
             lib(fails, "update", lambda: m.update(jnp.array(stp["uidx"]), new))
+            inplace_targets.append(m)
             stats["producing"] += 1
         elif op == "linear_sum":
             m = objs[stp["i"]]
@@ -400,6 +439,7 @@ def _run(case):
         elif op == "update_Sigma":
             c = conds[stp["j"]]
             lib(fails, "update_Sigma", lambda: c.update_Sigma(J(stp["S"])))
+            inplace_targets.append(c)
             stats["producing"] += 1
         elif op == "approx":
             m = objs[stp["i"]]
@@ -410,6 +450,14 @@ def _run(case):
                 kf_flag = {"kf_het_da": True}
             route = stp["route"]
             tag = f"approx[{'het' if het else stp['akind']}].{route}"
+            if het and stp["akind"] in ("exp", "cosh") and route != "cond_x":
+                # E link(h) grows like exp(Var h / 2): beyond Var h ~ 20 the matched covariance leaves the
+                # conditioning domain of the properties (cond > 1e6); such steps end the history (counted)
+                Wn = np.asarray(ap["W"], float)[:, 1:]
+                vh = np.einsum("ki,ij,kj->k", Wn, np.asarray(m.Sigma, float)[0], Wn)
+                if np.any(vh > 20.0):
+                    fails.append(Failure("excluded:approx_extreme_regime", tag))
+                    raise _Stop()
             if route == "cond_x":
                 x = J(stp["x"])
                 r = produce(tag, lambda: mk(ap)(x), lambda: mk(ap)(x))
@@ -432,6 +480,7 @@ def _run(case):
         elif op == "warm":
             m = objs[stp["i"]]
             lib(fails, f"warm.{stp['which']}", lambda: _WARM[stp["which"]](m))
+        _ledger_check(inplace_targets, op)
         # invariant after every step, for every pooled object
         f_inv = []
         for k, m in enumerate(objs):
